@@ -18,7 +18,7 @@ REQUIRED_CLASSES = ["jump_rel", "jump_backward", "extended_arg_on_jump", "cell_a
 
 
 def examples(tier):
-    return 4000 if tier == "quick" else 90000
+    return 3400 if tier == "quick" else 90000
 
 
 def wall_budget(tier):
